@@ -20,7 +20,9 @@ claim('C16', 'model_checking',
       'and free-list iteration order as adversarial choices; each transition is checked against an interval-set '
       'reference (inside partition, disjoint, no-space only when no free run). Node ids: one symbolic step from an '
       'arbitrary cursor over the whole 26-bit window decided by z3, plus z3 lemmas giving pairwise distinctness over '
-      'a full window.',
+      'a full window. Server level: for small option values (audio/control buses, buffers, in/out channels, reserved '
+      'counts, max_logins 1..3, every client id) every index a Server hands out until exhaustion lies inside the '
+      'server\'s range for that resource, ranges of different client ids are disjoint and each client gets its share.',
       _TB + '; the block-allocator part is finite-domain: the decision tree enumerates it completely and the solver '
       'only decides the node-id obligations.',
       'decision-tree state exploration of the real allocator (fixpoint) + SMT validity (LIA) for NodeIDAllocator',
@@ -53,7 +55,8 @@ claim('C19', 'other',
       'Layout of Env._envgen_format (initial level, count, release/loop node or -99, per-segment level/time/shape '
       'number/curvature with wrap indexing; every shape name against an independent server table), the documented '
       'breakpoints of the 11 standard constructors, and client-side evaluation (_at == level at each breakpoint, '
-      'between the neighbouring levels inside a segment for all 9 shape kinds, last level afterwards) are z3 validity '
+      'between the neighbouring levels inside a segment for all 9 shape kinds, last level afterwards, for a symbolic '
+      'start offset) are z3 validity '
       'queries over the terms computed by the real Env methods for symbolic levels, times, curvatures and evaluation '
       'time; segment counts, curve-spec kinds and node options are explored completely up to the stated bound.',
       _TB + '; exp/sin/cos/sqrt/cbrt/pow are uninterpreted (Ackermannised) with the listed axioms.',
@@ -62,8 +65,8 @@ claim('C19', 'other',
 claim('C01', 'translation_validation',
       'Every program of the bounded space (all SSA expression DAGs with <=2 ring-operator nodes over audio/control '
       'units and two constants in quick; <=2 nodes over 8 leaf kinds and <=3 nodes over 3 leaves in thorough; plus '
-      'madd, 3/4-term sums, shared rewritten sums, dead pure operators, two outputs, and every unary/binary server '
-      'operator) is built by the real SynthDef with SYMBOLIC constants; the emitted bytes are decoded by an '
+      'madd (also in list form over channels of different rates), 3/4-term sums through +, Sum3/Sum4.new and Mix, '
+      'shared rewritten sums, double negations, dead pure operators, two outputs, and every unary/binary server operator) is built by the real SynthDef with SYMBOLIC constants; the emitted bytes are decoded by an '
       'independent SCgf-2 reader into z3 terms and z3 proves, per path, compiled output == source expression for all '
       'leaf values and all constants of the path class, stateful units exactly once, opcode == server table, '
       'arithmetic rates == max input rate.',
@@ -78,7 +81,8 @@ claim('C02', 'translation_validation',
       'real SynthDef with symbolic constants; per path an independent SCgf-2 reader must consume the bytes exactly, '
       'all inputs refer to constants or strictly earlier outputs, width-first units precede everything created after '
       'them, parameter slots are covered exactly once, and SynthDesc.new_from/_read_stream recover name, control names, '
-      'defaults (z3 equality with the symbolic source defaults), rates, gate flag and I/O units; invalid graphs must '
+      'defaults (z3 equality with the symbolic source defaults), rates, gate flag and I/O units; invalid graphs (rate '
+      'mismatches, NaN / non-numeric inputs, also into units with their own validators at audio and control rate) must '
       'raise. Every C01 path is validated structurally as well.',
       _TB + '; creation order is observed by wrapping SynthDef._add_ugen from the harness.',
       'symbolic execution of the real builder/writer/reader + independent structural validation per path',
@@ -113,7 +117,7 @@ claim('C03', 'translation_validation',
 claim('C08', 'model_checking',
       'Bounded model checking of the real SystemClock._run, TempoClock._run and AppClock._run loops by '
       'environment-in-wait co-simulation: physical time is a symbolic non-decreasing real, the placement of up to 3 '
-      'foreign actions (sched, sched_abs, clear, tempo change) relative to the clock thread\'s sleep/wake cycle and every '
+      'foreign actions (sched, sched_abs, clear, tempo change, etempo, the same task object scheduled again) relative to the clock thread\'s sleep/wake cycle and every '
       'wait outcome (notified, timed out, blocked for ever) are solver decisions, scheduling deltas and the re-schedule '
       'value are symbolic reals, all subsets of raising tasks. Obligations per path (z3): exactly once per scheduling, '
       'never early, in the zero-jitter sub-model exactly on time (no waiting for an unrelated deadline), (time, '
@@ -127,7 +131,7 @@ claim('C08', 'model_checking',
 claim('C05', 'model_checking',
       'RT: co-simulation of the real SystemClock/TempoClock run loops with ARBITRARY wake-up latency: a routine with '
       '2/3 symbolic yields, an optional competing routine and an optional child routine (same clock, TempoClock or '
-      'SystemClock) -- z3 proves at every resumption logical time == start + sum of deltas (through the tempo), child '
+      'SystemClock; started with play or with clock.sched(delay, routine)) -- z3 proves at every resumption logical time == start + sum of deltas (through the tempo), child '
       'start == parent\'s current logical time, on every interleaving chosen by the decision tree. NRT: the real '
       'ClockScheduler with routines on SystemClock, AppClock and TempoClocks created at a non-zero time (with/without '
       'beats offset): same closed form, executed instants non-decreasing, elapsed time ends at the last instant. '
@@ -176,7 +180,8 @@ claim('C17', 'model_checking',
       'creation with every add action and default-group / server / node / root targets, list and dict arguments, '
       'set (scalars, arrays, bus and buffer objects), setn, map / mapn / mapa / mapan, fill, run, release, '
       'move_before / after / to_head / to_tail, free, Buffer allocation (single; 1..4 consecutive), free, double '
-      'free, free_all, Bus allocation / free / set, and sync inside bind(); inside bind() an exception is raised at '
+      'free (with and without a completion function), free_all, Bus allocation / free / set, sub buses at every offset, '
+      'and sync inside bind(); inside bind() an exception is raised at '
       'a symbolic position. Everything the objects hand to the OSC interface is recorded and checked against a '
       'command schema table transcribed from the Server Command Reference (name, count pattern, argument kinds, '
       'nested lists only as completion blobs) and an id ledger (only own ids; creation carries the own id, action '
@@ -196,7 +201,8 @@ claim('C18', 'model_checking',
       'printable-ASCII keys of ANY length; (b) all dispatch histories of 5 (quick) / 6 operations over create / enable / '
       'disable / one_shot / free / replace function / CmdPeriod / message with a symbolic int argument, against a '
       'reference dispatcher: exactly the enabled matching responders fire, once, in registration order per path, with '
-      'message, time, sender, port; (c) one iteration of the real bundle-element loop from an arbitrary position with an '
+      'message, time, sender, port; every combination of source / receive-port filters x sender host / port x receiving '
+      'port; (c) one iteration of the real bundle-element loop from an arbitrary position with an '
       'arbitrary int32 size: z3 proves the position strictly increases or the loop leaves (models replayed as real '
       'datagrams under a watchdog); (d) SystemAction / NotificationCenter histories vs an ordered list; plus CrossHair '
       'bug hunting: no datagram of <= 20 bytes raises into the receiver.',
@@ -212,7 +218,9 @@ claim('C20', 'model_checking',
       'NaN / non-numeric input, in the signature and in the writer: afterwards no build context, lock free, a stray unit '
       'belongs to no definition, the next build gives baseline bytes; (3) two real builder threads under a cooperative '
       'scheduler with hand-over choices at every unit creation and lock operation (<= 2/3 voluntary switches): both '
-      'results equal their sequential builds. Counterexamples are replayed with real sets / real preemptive threads.',
+      'results equal their sequential builds; (4) every history of 3/4 operations over successful builds (graphs with '
+      'and without width-first units), description reads (SynthDesc.new_from, add) and failing builds leaves no build '
+      'context and gives fresh-state bytes. Counterexamples are replayed with real sets / real preemptive threads.',
       _TB + '; finite control spaces are enumerated completely by the decision tree (the solver is only the branch '
       'oracle here).',
       'decision-tree model checking of the real builder (adversarial set order, fault injection, cooperative 2-thread '
@@ -231,10 +239,11 @@ claim('C13', 'translation_validation',
       'DESIGN.md 3/C13')
 
 claim('C10', 'model_checking',
-      'Product of two symbolic executions of ONE program text (11 programs quick / 18 thorough: two routines with '
+      'Product of two symbolic executions of ONE program text (16 programs quick / 25 thorough: two routines with '
       'every delta symbolic, single-routine time arithmetic with tempo / etempo / beats re-basing, and discrete '
       'features -- seeded random draws with symbolic arguments, Condition wait/signal, pause/resume, stop, child '
-      'routine, re-seeding -- on SystemClock and TempoClock): the NRT process explores the real ClockScheduler and '
+      'routine, re-seeding, a tempo / beats change while another routine waits, negative latency, a non-numeric yield, '
+      'a plain function scheduled on the clock -- on SystemClock and TempoClock): the NRT process explores the real ClockScheduler and '
       'emits per path an SMT-LIB summary (path condition + every logged value + every (time, bundle) of '
       'main.process().list); the RT process explores the real clock run loops in the co-simulation with arbitrary '
       'wake-up latency, decodes the datagrams captured at OscInterface._send with the independent OSC reader, and '
@@ -257,7 +266,8 @@ claim('C11', 'model_checking',
       'self-stop/pause/reset, nested routine, nested routine that tries to stop/pause/reset its caller; after every '
       'operation result/exception, state, current thread and the caller\'s logical time (z3) must agree. Condition / '
       'FlowVar: every history of 5/6 operations (up to 2 waiters, signal, test changes, unhang, value assignment, '
-      'scheduler runs): a waiter resumes exactly once and only after test-true-and-signalled.',
+      'scheduler runs), the wait reached directly or three routines deep: a waiter resumes exactly once, only after '
+      'test-true-and-signalled, and through the routine that is playing on the clock.',
       _TB + '; finite control is enumerated completely by the decision tree; the solver decides value/time equalities.',
       'decision-tree model checking of the real classes against a reference automaton + SMT equality of values/times',
       'DESIGN.md 3/C11')
